@@ -26,7 +26,7 @@ fn strategy() -> impl Strategy<Value = History> {
     // targeted by an allow list of one to three known ids (several may match: the store's first is used), or discovered
     let auth = (proptest::collection::vec(any::<u16>(), 1..4), proptest::bool::weighted(0.8), cm::bytes(32), any::<u8>(), any::<u16>()).prop_map(|(ks, targeted, challenge, uv, s)| {
         let ks = if uv % 2 == 0 { ks[..1].to_vec() } else { ks };
-        Op::Auth(AuthOp { site: [0usize, 1, 2, 8][s as usize % 4], prf: (uv % 3 == 0).then(|| challenge.clone()), challenge, allow: if targeted { AllowSel::Ids(ks.into_iter().map(|k| IdRef::Known(k, true)).collect()) } else { AllowSel::Absent }, cd: CdMode::Default, uv })
+        Op::Auth(AuthOp { site: [0usize, 1, 2, 8][s as usize % 4], prf: ((s / 4) % 3 == 0).then(|| challenge.clone()), challenge, allow: if targeted { AllowSel::Ids(ks.into_iter().map(|k| IdRef::Known(k, true)).collect()) } else { AllowSel::Absent }, cd: CdMode::Default, uv })
     });
     let fault = (any::<u16>(), cm::bytes(16), prop_oneof![Just(0x2Eu8), Just(0x28), Just(0x7F), Just(0x01), Just(0x00)]).prop_map(|(k, challenge, code)| {
         Op::AuthUpdateFault(AuthOp { site: 0, challenge, allow: AllowSel::Ids(vec![IdRef::Known(k, true)]), cd: CdMode::Default, uv: 0, prf: None }, code)
@@ -54,7 +54,7 @@ fn strategy() -> impl Strategy<Value = History> {
                 for o in ops.iter_mut() {
                     match o {
                         Op::Auth(a) | Op::AuthUpdateFault(a, _) => a.site = 0,
-                        Op::Reg(r) => r.site = 0,
+                        Op::Reg(r) | Op::RegSaveFault(r, _) => r.site = 0,
                         Op::CtapAuth { .. } => {}
                     }
                 }
